@@ -31,8 +31,8 @@ def budget(tier):
 
 
 WORLD = dict(offices=["G", "G", "S", "H"], unit_types=["precinct", "precinct", "county"], n_states=(1, 3), n_counties=(2, 7),
-             n_units=(2, 7), zero_baseline_frac=0.04)
-PROFILE = dict(estimators=["nonparametric", "nonparametric", "gaussian", "bootstrap"], B=(2, 30))
+             n_units=(2, 7), zero_baseline_frac=0.04, odd_unit_frac=0.04, prorated_p=0.1)
+PROFILE = dict(estimators=["nonparametric", "nonparametric", "gaussian", "bootstrap"], B=(2, 30), outlier_models_p=0.3)
 FEED = dict(p_loss=0.05, n_foreign=(0, 3), max_polls=3, poll_every=(40.0, 160.0), start_polls_after=170.0,
             surge_frac=0.02, boundary_frac=0.05)
 
@@ -41,7 +41,7 @@ def make_spec(st, idx, tier):
     pk = dict(PROFILE)
     spec = C.state_spec(st, tier, WORLD, pk, FEED, min_units=30)
     mp = spec["profile"]["model_parameters"]
-    if mp.get("fit_turnout_outlier_model") and "unit" not in spec["profile"]["aggregates"]:
+    if (mp.get("fit_turnout_outlier_model") or mp.get("fit_margin_outlier_model")) and "unit" not in spec["profile"]["aggregates"]:
         spec["profile"]["aggregates"].append("unit")
     # feed fault 'partial row': the value of one requested estimand has not arrived yet for a unit whose other counts
     # have (vote-count estimands only; the margin estimand needs both parties by definition)
